@@ -58,6 +58,9 @@ CHECKS = {
  'C17': ('conjoin', 'seeded pairs of HRGs over shared rule skeletons (several rules per skeleton, name clashes, shared/duplicated terminal edges, g with g, implicit ids, genuine conflicts) -> conjoin_hrgs on the real grammars -> TLC judge (Trace_Conjoin): one rule per conjoinable pair with the paired nonterminal edges and the terminal edges of both, names injective and fresh, derivation counts = paired-derivation counts to depth 3, ValueError exactly on terminal conflicts',
          'Relational judgement of the whole conjoined grammar against Conjoin.tla for 240 (quick) / 3000 (thorough) grammar pairs in 7 modes; the naming of nonterminal pairs is a hint that TLC verifies (or re-derives by search for <=4 pairs); the one-to-one correspondence of derivations is checked through counts of derivations of depth <=3 on the observed grammar.',
          'Trusted: TLC, Conjoin.tla, the projection of the result (node/edge ids). One node label, nonterminals of arity 0/1, <=3 skeletons.', 'DESIGN.md#c17'),
+ 'C18': ('session', 'TLC enumerates every history of queries up to the bound (MC_Session; R3: heap unchanged, equal queries give equal results) -> each history executed on the same real objects with deep snapshots (structure, storage bytes, sizes, strides, offsets, defaults, requires_grad, grad presence) digested before/after every call and canonical results digested; clone-then-in-place programs on PatternedTensors and MultiTensors -> TLC trace judge (Trace_Session)',
+         'All 196 (quick, length 2) / 2744 (thorough, length 3) histories over an alphabet of 14 queries (sum_product x 5 semiring/method variants, sum_products, viterbi, factorize_rule/hrg/fgg, conjoin with itself / another, fgg_to_json, hrg_to_json) on 6 / 12 worlds (dense / requires_grad / patterned weights, recursive or not); every query is observed before and after every other; 12 in-place operations on clones of 60 / 600 typed patterned tensors and 5 on MultiTensor clones.',
+         'Trusted: TLC (equality of digests along the session), the snapshot and canonicalisation code of the driver (SHA-1 over canonical JSON). Purity of backward() itself (gradient accumulation into .grad) is user-requested mutation and not a query.', 'DESIGN.md#c18'),
  'C19': ('scc', 'TLC enumerates all digraphs (MC_Scc) -> fggs.utils.scc / nonterminal_graph -> TLC judges recorded results against SCCs-by-definition (Trace_Scc)',
          'Exhaustive over every digraph on <=3 (quick) / <=4 (thorough) vertices incl. self-loops, with all adjacency and vertex insertion orders, plus seeded digraphs to 8 vertices and seeded HRGs; each observed result is judged by TLC against the definitional components, partition and dependency order.',
          'Trusted: TLC, the 60-line definitional spec Scc.tla, the driver that builds the adjacency dict. Bounded by vertex count.', 'DESIGN.md#c19'),
